@@ -327,8 +327,9 @@ def spec_matches(impl, s) -> bool:
 
 
 def py_simple_fragment(prog) -> bool:
-    """used only when the Coq model cannot be built: shapes of the documented tests, without next_rule"""
-    return sig_of(prog) in ("", "R", "A", "AA", "RA", "R{A}", "R{AA}", "R{A}A")
+    """used only when the Coq model cannot be built: programs without next_rule (since /repo 4511011 the construction is
+    right for every skeleton the check enumerates)"""
+    return "N" not in sig_of(prog)
 
 
 def evaluate(cases, model_ok):
@@ -354,8 +355,8 @@ def evaluate(cases, model_ok):
 
 
 CLASS_TEXT = {
-    "K_surgery": "the tree built by refinement()/alternative()/next_rule() is not the written one (C08-a/b/c, and C08-f where a node ends up shared)",
-    "K_next": "next_rule conclusion dropped for a binding an earlier branch concluded (C08-d/e)",
+    "K_surgery": "the tree built by refinement()/alternative()/next_rule() is not the written one (C08-a/b/c/f, repaired by /repo 4511011: no open finding)",
+    "K_next": "programs with next_rule: conclusion dropped for a binding an earlier branch concluded (C08-d/e); alternative after a next_rule (C08-g)",
 }
 
 
@@ -384,7 +385,7 @@ def run(tier: str, seed: int, replay=None) -> int:
         "Spec reading: branches written at one level are tried in written order; a next_rule written earlier counts as an earlier branch for a later alternative; "
         "several refinements of one rule are tried in written order",
     ]
-    rep.rule = ("corpus first; then seeded random rule programs: 45% a next_rule-free skeleton and 13% any skeleton sampled from the recorded list of well-built skeletons (<= 4 branches), "
+    rep.rule = ("corpus first; then seeded random rule programs: 45% a next_rule-free skeleton and 13% any skeleton sampled from the list of skeletons with <= 4 branches, "
                 "42% a random forest of 1..6 branches, nesting <= 3, kinds R:A:N = 2:2:1; 1-2 atoms per branch over attributes a,b, "
                 "constants -1..3, 8% branches without conclusion; worlds of 0..8 objects with attribute values -1..3 (value-equal twins frequent); "
                 "thorough adds every skeleton with <= 4 branches; distinct = distinct (program, world); non-trivial = at least one branch, "
@@ -402,7 +403,7 @@ def run(tier: str, seed: int, replay=None) -> int:
     if gs.exists():
         good = json.loads(gs.read_text())["good"]
     findings = core.load_findings(PROP)
-    witness_files = {f.witness for f in findings}
+    open_classes = {f.cls for f in findings if f.kind == "open"}
 
     cases, origin = [], []
     if replay is not None:
@@ -468,7 +469,7 @@ def run(tier: str, seed: int, replay=None) -> int:
         if model_ok:
             cls = case_class(fr)
             dist["class"][cls] = dist["class"].get(cls, 0) + 1
-            m_ok = model_matches(impl, m, shared=(fr[2] == 1))
+            m_ok = model_matches(impl, m)      # an instance object returned twice (C08-f, fixed) never matches
             if impl[0] == 0 and impl[2]:
                 stale_notes += 1
             if cls == "F":
@@ -481,8 +482,10 @@ def run(tier: str, seed: int, replay=None) -> int:
                     agree_outside[cls] += 1
                     if not m_ok:
                         rep.note(f"model differs from impl=spec outside F ({cls}): finding may be repaired; case {sig_of(c['prog'])!r}")
-                elif m_ok:
+                elif m_ok and cls in open_classes:
                     inst[cls] += 1
+                elif m_ok:
+                    bad.append((c, org, impl, m, s, fr, f"outside the fragment ({cls}); no open finding is listed for this class"))
                 else:
                     bad.append((c, org, impl, m, s, fr, f"outside the fragment ({cls}) and not what the faithful model predicts"))
         else:
@@ -491,7 +494,7 @@ def run(tier: str, seed: int, replay=None) -> int:
 
     rep.extra["distribution"] = dist
     rep.extra["cases_by_origin"] = by_origin
-    inst["C08-f same instance object returned twice (shared-node shapes)"] = stale_notes
+    rep.extra["same_instance_object_twice"] = stale_notes        # C08-f (fixed): must stay 0
     rep.extra["known_finding_instances"] = inst
     rep.extra["outside_F_agreeing_with_spec"] = agree_outside
     rep.samples = [{"case": c, "impl": r[0], "spec": sorted(r[2])} for c, r in list(zip(cases, results))[:: max(1, len(cases) // 6)]][:6]
@@ -515,7 +518,7 @@ def run(tier: str, seed: int, replay=None) -> int:
             continue
         fails = not spec_matches(impl, s)
         if f.kind == "open":
-            if fails and (not model_ok or model_matches(impl, m, shared=(fr[2] == 1))) and impl == d.get("impl", impl):
+            if fails and (not model_ok or model_matches(impl, m)) and impl == d.get("impl", impl):
                 rep.known(f)
             elif fails:
                 rep.violation({"kind": "counterexample", "case": d["case"], "impl": impl, "model": m, "spec": sorted(s),
